@@ -414,12 +414,11 @@ class Phase(Angle):
             # Check that formatting works at all...
             test = format(self.value, format_spec)
             pre, dot, post = test.partition(".")
-            if post:
-                precise = self.to_string(precision=len(post))
-                pre, _, post = precise.partition(".")
-                # Just to ensure no bad rounding happened
-                pre = format(float(pre), format_spec).partition(".")[0]
-                return pre + dot + post
+            precise = self.to_string(precision=len(post))
+            pre, _, post = precise.partition(".")
+            # Just to ensure no bad rounding happened
+            pre = format(float(pre), format_spec).partition(".")[0]
+            return pre + dot + post
 
         return self.cycle.__format__(format_spec)
 
